@@ -140,9 +140,10 @@ def run_harness(ws, crate, harness, cargo_args=(), timeout=600, mem_gb=12, extra
     env["CARGO_NET_OFFLINE"] = "true"
     env["CARGO_TARGET_DIR"] = target_dir or os.path.join(CACHE, "kani-target", crate)
     env.pop("RUSTUP_TOOLCHAIN", None)
-    cmd = ["cargo", "kani", "-p", crate] + list(cargo_args) + KANI_FLAGS + ["--harness", harness, "--exact"] + list(extra)
+    cmd = ["cargo", "kani", "-p", crate] + list(cargo_args) + KANI_FLAGS + ["--harness", harness, "--exact"]
     if playback:
         cmd += ["-Z", "concrete-playback", "--concrete-playback=print"]
+    cmd += list(extra)      # last: `--cbmc-args` swallows everything after it
     rc, out, secs, to = run(cmd, cwd=ws.root, timeout=timeout, env=env, mem_gb=mem_gb)
     return {"cmd": " ".join(cmd), "rc": rc, "out": out, "secs": secs, "timed_out": to}
 
